@@ -227,11 +227,15 @@ fn round_frequency_p0f_style(freq: f64) -> u32 {
     }
 }
 
-/// Calculate frequency between two timestamps with p0f-style backward handling
+/// Calculate frequency between two timestamps with p0f-style backward handling.
+///
+/// `Ok(None)` means "keep waiting": interval and rate are plausible but the timestamp advanced by
+/// fewer than `MIN_TS_DIFF` ticks, too few to estimate from. The caller keeps its reference (and does
+/// not mark the frequency as bad) so that a later segment can be evaluated, as p0f does.
 fn calculate_frequency_p0f_style(
     current: &TcpTimestamp,
     reference: &TcpTimestamp,
-) -> Result<f64, String> {
+) -> Result<Option<f64>, String> {
     // Calculate time and timestamp differences
     let ms_diff = current.recv_time_ms.saturating_sub(reference.recv_time_ms);
     let ts_diff = current.ts_val.wrapping_sub(reference.ts_val);
@@ -269,13 +273,6 @@ fn calculate_frequency_p0f_style(
                 ));
             }
         }
-    } else {
-        // Forward movement - validate minimum difference
-        if ts_diff < MIN_TS_DIFF {
-            return Err(format!(
-                "Timestamp difference too small: {ts_diff} ticks < {MIN_TS_DIFF} ticks (MIN_TS_DIFF)"
-            ));
-        }
     }
 
     // Calculate frequency with backward timestamp handling
@@ -297,7 +294,12 @@ fn calculate_frequency_p0f_style(
         ));
     }
 
-    Ok(raw_freq)
+    // Forward movement at a plausible rate, but on fewer than MIN_TS_DIFF ticks: wait for more
+    if ts_diff < MIN_TS_DIFF {
+        return Ok(None);
+    }
+
+    Ok(Some(raw_freq))
 }
 
 /// New improved uptime calculation function using UptimeTracker
@@ -332,7 +334,7 @@ pub fn calculate_uptime_improved(
 
             // Try to calculate new frequency
             match calculate_frequency_p0f_style(&current_ts, syn_ts) {
-                Ok(raw_freq) => {
+                Ok(Some(raw_freq)) => {
                     // Apply intelligent rounding
                     let final_freq = if let Some(freq) =
                         guess_frequency(raw_freq, GUESS_HZ_1K, GUESS_TOLERANCE)
@@ -354,6 +356,10 @@ pub fn calculate_uptime_improved(
                     tracker.last_uptime = Some(uptime_info.clone());
 
                     return Some(uptime_info);
+                }
+                Ok(None) => {
+                    // Too few timestamp ticks yet: keep the SYN reference and wait
+                    return None;
                 }
                 Err(_) => {
                     // Mark frequency as bad to avoid repeated attempts
@@ -419,7 +425,7 @@ pub fn check_ts_tcp(
             );
 
             match calculate_frequency_p0f_style(&current_ts, reference_ts) {
-                Ok(raw_freq) => {
+                Ok(Some(raw_freq)) => {
                     // Apply intelligent rounding
                     let final_freq = if let Some(freq) =
                         guess_frequency(raw_freq, GUESS_HZ_1K, GUESS_TOLERANCE)
@@ -442,6 +448,9 @@ pub fn check_ts_tcp(
                     );
 
                     return (Some(uptime_info), None);
+                }
+                Ok(None) => {
+                    debug!("Client uptime: too few timestamp ticks yet, waiting");
                 }
                 Err(error) => {
                     debug!("Client uptime calculation failed: {}", error);
@@ -497,7 +506,7 @@ pub fn check_ts_tcp(
             );
 
             match calculate_frequency_p0f_style(&current_ts, reference_ts) {
-                Ok(raw_freq) => {
+                Ok(Some(raw_freq)) => {
                     // Apply intelligent rounding
                     let final_freq = if let Some(freq) =
                         guess_frequency(raw_freq, GUESS_HZ_1K, GUESS_TOLERANCE)
@@ -520,6 +529,9 @@ pub fn check_ts_tcp(
                     );
 
                     return (None, Some(uptime_info));
+                }
+                Ok(None) => {
+                    debug!("Server uptime: too few timestamp ticks yet, waiting");
                 }
                 Err(error) => {
                     debug!("Server uptime calculation failed: {}", error);
